@@ -41,9 +41,17 @@ def scenario(sseed, kind, allfail=False, empty=False):
         runs = [0]
         R1 = o.max_retries_per_trial + 1
 
+        stopped_seen = []
+        known_ids = set()
+
         def on_create(o_, w, t):
             if t.status == "RUNNING":
                 runs[0] += 1
+                if t.trial_id not in known_ids:
+                    known_ids.add(t.trial_id)
+                    if stopped_seen and kind in ("grid", "hyperband") and last_sample.get("v", 0) is not None:
+                        raise Violation("C11", f"{kind}: new trial {t.trial_id} handed to {w} after {stopped_seen} had already been told STOPPED "
+                                               "(the search was declared finished while work remained)", {"kind": kind, "tag": "trial-after-stopped"})
             elif t.status == "IDLE":
                 if not o_.ongoing_trials:
                     raise Violation("C11", f"{kind}: IDLE answered to {w} while no trial is running", {"kind": kind, "tag": "idle"})
@@ -51,6 +59,8 @@ def scenario(sseed, kind, allfail=False, empty=False):
                 budget_used = bool(o_.max_trials) and len(o_.trials) >= o_.max_trials
                 if budget_used:
                     return
+                if w not in stopped_seen:
+                    stopped_seen.append(w)
                 if kind in ("random", "bayes"):
                     if last_sample.get("v", 0) is not None:
                         raise Violation("C11", f"{kind}: STOPPED with budget left ({len(o_.trials)}/{o_.max_trials}) although the sampler did not give up",
